@@ -18,6 +18,7 @@ import (
 	"fmt"
 	"os"
 	"runtime"
+	"runtime/debug"
 	"strings"
 	"testing"
 	"time"
@@ -417,7 +418,7 @@ func TestC15(t *testing.T) {
 					tr.p("sweep %s %d %d %d %d %d", h.name, cap(vs), a.VaultKeeper.GetLengthOfVault(hctx), off, batch, present)
 				}
 				d0 := storeDigest(a, hctx)
-				panicked, msg := safely(func() { h.run(a, hctx) })
+				panicked, msg, at := c15Safely(func() { h.run(a, hctx) })
 				class := "ok"
 				if panicked {
 					class = "panic"
@@ -437,7 +438,7 @@ func TestC15(t *testing.T) {
 				if !panicked && storeDigest(a, hctx) != d0 {
 					changed = "1"
 				}
-				tr.p("hook %s %s %s %s", h.name, class, changed, msg)
+				tr.p("hook %s %s %s %s %s", h.name, class, changed, at, msg)
 			}
 			ci++
 		}
@@ -583,6 +584,25 @@ func TestC15(t *testing.T) {
 		}
 		ci++
 	}
+}
+
+// c15Safely runs f; on a panic it also reports which unit's per-item function was on the stack
+func c15Safely(f func()) (panicked bool, msg, at string) {
+	at = "-"
+	defer func() {
+		if r := recover(); r != nil {
+			panicked = true
+			msg = fmt.Sprint(r)
+			st := string(debug.Stack())
+			for k, v := range c15UnwrappedMarkers {
+				if strings.Contains(st, k+"(") {
+					at = v
+				}
+			}
+		}
+	}()
+	f()
+	return false, "", "-"
 }
 
 func c15Getenv(k, def string) string {
